@@ -317,6 +317,14 @@ impl Im2Col<'_, i8> {
             for start_row in rows.clone().step_by(K_TILE) {
                 for i in 0..K_TILE {
                     let k = start_row + i;
+
+                    // Rows beyond the end of the range pad the row count to a
+                    // multiple of `K_TILE`. These must always be zero. Their
+                    // offsets alone do not guarantee this, as they can be
+                    // cancelled by the negative offsets of columns that
+                    // start in the top / left padding.
+                    let is_row_padding = k >= rows.end;
+
                     let row_x_offset = ops.splat(unsafe { *row_x_offsets.get_unchecked(k) });
                     let row_y_offset = ops.splat(unsafe { *row_y_offsets.get_unchecked(k) });
                     let row_chan_offset = ops.splat(unsafe { *row_chan_offsets.get_unchecked(k) });
@@ -331,6 +339,12 @@ impl Im2Col<'_, i8> {
                         let x_valid =
                             mask_ops.and(ops.ge(x_offsets, zero), ops.le(x_offsets, max_x_offset));
                         let pad_mask = mask_ops.and(y_valid, x_valid);
+                        let pad_mask = if is_row_padding {
+                            // All-false mask
+                            ops.gt(zero, zero)
+                        } else {
+                            pad_mask
+                        };
                         let pad_mask_array = pad_mask.to_array();
 
                         // Set offsets to zero for padding elements. We require
